@@ -174,6 +174,13 @@ def register(M):
         reg(t, 'PartialOrd', 'ge', cmp_op('Ge'))
         reg(t, 'Clone', 'clone', lambda m, a, k: val(m, a[0]))
 
+    for t in INTS:
+        reg(t, 'Default', 'default', lambda m, a, k: 0)
+    reg('bool', 'Default', 'default', lambda m, a, k: False)
+    reg('String', 'Default', 'default', lambda m, a, k: Adt('String', 0, ('',)))
+    reg('Vec', 'Default', 'default', lambda m, a, k: Adt('Vec', 0, ()))
+    reg('Option', 'Default', 'default', lambda m, a, k: NONE)
+
     def ref_eq(m, a, k):
         # <&T as PartialEq>::eq(&&T, &&T): compare the pointees with T's own eq
         return key_eq(m, a[0], a[1])
